@@ -153,6 +153,8 @@ Proof.
   destruct ((capacity =? 0) || (d * (CC_MAX_ELEMENTS / capacity) <=? n)) eqn:Einv.
   { intros H; inversion H; subst. left; auto. }
   apply orb_false_iff in Einv. destruct Einv as [Ec0 _].
+  unfold g_array_new_bytes, SIZE_MAX.
+  replace ((W - 1) / 8 <? capacity) with false by (unfold W in *; lia).
   destruct (alloc mem ARRAY_HDR al) as [[h|] a1] eqn:E1.
   - destruct (alloc_wf _ _ _ _ _ Hw E1) as (Hw1 & Hlim1 & Hq1 & -> & Hlive1 & Hnid1 & _).
     destruct (wmul8 capacity Hc) as [Hw8 Hw8d]. rewrite Hw8d, Hw8.
@@ -181,3 +183,30 @@ Proof.
   destruct (release_owned _ _ _ Hw1 Hh1) as (a2 & -> & _ & _ & _ & _ & _ & Hiff2).
   eexists; split; [reflexivity|]. intros b. rewrite Hiff2, Hiff1. tauto.
 Qed.
+
+(** Since the byte-size repair the constructor is total over every machine-word capacity: the hypothesis
+    [capacity * 8 < W] of [arr_new_spec] is no longer an assumption about the caller - a capacity whose buffer
+    size in bytes is not representable is refused with nothing allocated. *)
+Theorem arr_new_total mem capacity num den al st r al' :
+  ledger_wf al -> 0 < den ->
+  arr_new mem capacity num den al = (st, r, al') ->
+  match r with
+  | Some a => st = CC_OK /\ a_data a = [] /\ a_cap a = capacity /\ arr_inv a al' /\ a_mem a = mem /\ capacity * 8 < W /\
+              (a_num a, a_den a) = (if num <=? den then (DEFAULT_EXPANSION_FACTOR_num, DEFAULT_EXPANSION_FACTOR_den) else (num, den))
+  | None => (st = CC_ERR_INVALID_CAPACITY /\ al' = al) \/ (st = CC_ERR_ALLOC /\ live al' = live al)
+  end.
+Proof.
+  intros Hw Hd H. destruct (g_array_new_bytes capacity SIZE_MAX) eqn:E.
+  - unfold arr_new in H.
+    destruct (if num <=? den then (DEFAULT_EXPANSION_FACTOR_num, DEFAULT_EXPANSION_FACTOR_den) else (num, den)) as [n d].
+    destruct ((capacity =? 0) || (d * (CC_MAX_ELEMENTS / capacity) <=? n)); [|rewrite E in H]; inversion H; subst; left; auto.
+  - assert (Hc : capacity * 8 < W) by (unfold g_array_new_bytes, SIZE_MAX in E; unfold W in *; lia).
+    pose proof (arr_new_spec mem capacity num den al st r al' Hw Hc Hd H) as S.
+    destruct r as [a|]; [|exact S]. destruct S as (S1 & S2 & S3 & S4 & S5 & S6). repeat apply conj; auto.
+Qed.
+
+Example arr_new_total_witness :
+  fst (fst (arr_new Conf 2305843009213693952 2 1 (alloc_init [] 1099511627776))) = CC_ERR_INVALID_CAPACITY /\
+  fst (fst (arr_new Conf 2305843009213693951 2 1 (alloc_init [] 1099511627776))) = CC_ERR_ALLOC /\
+  fst (fst (arr_new Conf 4 2 1 (alloc_init [] 1099511627776))) = CC_OK.
+Proof. vm_compute. repeat split. Qed.
